@@ -68,7 +68,7 @@ func VerifPolicy[K Key, V any](c *Cache[K, V]) (costs []VerifCost, used, maxCost
 		costs = append(costs, VerifCost{k, v})
 	}
 	sort.Slice(costs, func(i, j int) bool { return costs[i].Key < costs[j].Key })
-	return costs, e.used, e.maxCost
+	return costs, e.used, verifMaxCost(c)
 }
 
 type VerifBucketEntry struct {
